@@ -30,6 +30,7 @@ class Suite:
     plans: str = 'std'                           # std | pairs | ok | cancel
     limit: int = 6000
     max_nodes: int = 99
+    min_nodes: int = 0
     reduce: bool = True
     require_tag: t.Optional[str] = None          # only cases whose reference evaluation carries this tag
     unnamed_switches: bool = False               # SwitchCase marks without name= (uuid-suffixed synthetic ids)
@@ -41,7 +42,7 @@ VERDICT = {'unexpected-success', 'unexpected-failure'}
 VALUE = {'wrong-value', 'none-in-value', 'exception-as-value', 'recurrent-as-value', 'outcome-varies'}
 ERR = {'wrong-error', 'escaped-exception', 'escaped-cancelled', 'error-not-identical'}
 KW = {'exception-as-kwarg', 'recurrent-as-kwarg', 'none-as-kwarg', 'wrong-kwarg-keys', 'wrong-kwarg-value', 'started-before-input-final'}
-COUNT = {'dup-exec', 'missing-exec'}
+COUNT = {'dup-exec', 'dup-exec-outside-rec', 'missing-exec'}
 LAZY = {'forbidden-exec', 'candidate-started-early'}
 LEFT = {'leftover-tasks', 'late-activity', 'unbounded-drain', 'cancel-hang', 'cancel-wrong-exception'}
 
@@ -58,11 +59,19 @@ def suites(prop: str, tier: str) -> t.List[Suite]:
         return [
             Suite('d0-async', GEN + ['corpus'], ['outcome', 'varies'], 0, ['async'], symptoms=sym),
             Suite('d0-thread', GEN + ['corpus'], ['outcome', 'varies'], 0, ['thread'], symptoms=sym),
+            Suite('twice', ['twice'], ['outcome', 'varies'], 0, ['async'], symptoms=sym),
             Suite('shared-gated-complete', ['corpus', 'switch', 'oneof'], ['outcome', 'varies'], 0, ['async'], collab={'mode': 'gated', 'gate_kinds': ['node_complete']},
                   symptoms=sym, plans='ok', max_nodes=8 if q else 9, require_tag='node-requested-from-two-scopes', limit=30000),
             Suite('shared-gated-start', ['corpus', 'switch', 'oneof'], ['outcome', 'varies'], 0, ['async'], collab={'mode': 'gated', 'gate_kinds': ['node_start']},
                   symptoms=sym, plans='ok', max_nodes=8 if q else 9, require_tag='node-requested-from-two-scopes', limit=30000),
             Suite('composed', COMPOSED, ['outcome', 'varies'], 0, ['async'] if q else ['async', 'thread'], symptoms=sym),
+        ] + [
+            # the engine's hash-ordered sets of node ids (notification order of a node's consumers, node order of small
+            # sub-DAG views) iterated in sorted / reverse-sorted order instead of the order PYTHONHASHSEED=0 gives
+            Suite(f'set-order-{o}', ['corpus'] + ([] if q else ['oneofx', 'mix', 'recx', 'switchx']), ['outcome', 'varies'], 0, ['async'],
+                  collab={'set_order': o}, symptoms=sym, min_nodes=6)
+            for o in ('sorted', 'reversed')
+        ] + [
             Suite('d1', ['corpus', 'rec'] if q else GEN + ['corpus'], ['outcome', 'varies'], 1, ['thread'],
                   symptoms=sym, max_nodes=4 if q else 5),
         ] + ([] if q else [Suite('d2', ['corpus', 'plain', 'rec', 'oneof', 'switch'], ['outcome', 'varies'], 2, ['thread'], symptoms=sym, max_nodes=5, limit=20000)])
@@ -72,6 +81,11 @@ def suites(prop: str, tier: str) -> t.List[Suite]:
             Suite('d0-thread', GEN + ['corpus'], ['term'], 0, ['thread'], symptoms=TERM),
             Suite('composed', COMPOSED, ['term'], 0, ['async'] if q else ['async', 'thread'], symptoms=TERM, plans='std' if q else 'pairs'),
             Suite('d1', ['corpus'] + ([] if q else GEN), ['term'], 1, ['thread'], symptoms=TERM, max_nodes=5 if q else 5),
+        ] + [
+            Suite(f'set-order-{o}', ['corpus'] + ([] if q else ['oneofx', 'mix', 'recx', 'switchx']), ['term'], 0, ['async'],
+                  collab={'set_order': o}, symptoms=TERM, min_nodes=6)
+            for o in ('sorted', 'reversed')
+        ] + [
             Suite('gated-collab', ['corpus', 'plain'] + ([] if q else ['oneof', 'switch', 'rec']), ['term'], 0, ['async'],
                   collab={'mode': 'gated', 'store': 'rec'}, symptoms=TERM, max_nodes=4 if q else 5),
         ] + [
@@ -89,6 +103,7 @@ def suites(prop: str, tier: str) -> t.List[Suite]:
         return [
             Suite('d0-async', GEN + ['corpus'], ['kwargs'], 0, ['async'], symptoms=KW),
             Suite('d0-thread', GEN + ['corpus'], ['kwargs'], 0, ['thread'], symptoms=KW),
+            Suite('twice', ['twice'], ['kwargs'], 0, ['async'], symptoms=KW),
             Suite('shared-gated-complete', ['corpus', 'switch', 'oneof'], ['kwargs'], 0, ['async'], collab={'mode': 'gated', 'gate_kinds': ['node_complete']},
                   symptoms=KW, plans='ok', max_nodes=8 if q else 9, require_tag='node-requested-from-two-scopes', limit=30000),
             Suite('shared-gated-start', ['corpus', 'switch', 'oneof'], ['kwargs'], 0, ['async'], collab={'mode': 'gated', 'gate_kinds': ['node_start']},
@@ -104,6 +119,7 @@ def suites(prop: str, tier: str) -> t.List[Suite]:
         sym = COUNT | {'wrong-kwarg-value', 'none-as-kwarg'}
         return [
             Suite('yield-d0', GEN + ['corpus'], ['counts', 'kwargs'], 0, ['async'], collab={'mode': 'yield'}, symptoms=sym),
+            Suite('twice', ['twice'], ['counts', 'kwargs'], 0, ['async'], collab={'mode': 'yield'}, symptoms=sym),
             Suite('shared-gated-complete', ['corpus', 'switch', 'oneof'], ['counts', 'kwargs'], 0, ['async'], collab={'mode': 'gated', 'gate_kinds': ['node_complete']},
                   symptoms=sym, plans='ok', max_nodes=8 if q else 9, require_tag='node-requested-from-two-scopes', limit=30000),
             Suite('shared-gated-start', ['corpus', 'switch', 'oneof'], ['counts', 'kwargs'], 0, ['async'], collab={'mode': 'gated', 'gate_kinds': ['node_start']},
@@ -136,6 +152,8 @@ def suites(prop: str, tier: str) -> t.List[Suite]:
             Suite('d0-async', ['switch', 'mix', 'corpus'], mons, 0, ['async'], symptoms=sym),
             Suite('composed', ['switchx'], mons, 0, ['async'] if q else ['async', 'thread'], symptoms=sym),
             Suite('d0-thread', ['switch', 'corpus'], mons, 0, ['thread'], symptoms=sym),
+            # a consumer that names a case (or the switch node) of its own switch also as a direct Input
+            Suite('twice', ['twice'], mons, 0, ['async'], symptoms=sym),
             Suite('unnamed', ['switch', 'corpus'] + ([] if q else ['switchx']), mons, 0, ['async'], symptoms=sym, unnamed_switches=True),
             Suite('shared-named', ['switch', 'switchx', 'corpus'], mons, 0, ['async'], symptoms=sym, shared_switch_names=True),
             Suite('d1', ['corpus', 'switch'], mons, 1, ['thread'], symptoms=sym, max_nodes=4 if q else 5),
@@ -147,6 +165,10 @@ def suites(prop: str, tier: str) -> t.List[Suite]:
             Suite('d0-async', ['oneof', 'mix', 'corpus'], mons, 0, ['async'], symptoms=sym, plans='pairs'),
             Suite('composed', ['oneofx'], mons, 0, ['async'] if q else ['async', 'thread'], symptoms=sym, plans='std' if q else 'pairs'),
             Suite('d0-thread', ['oneof', 'corpus'], mons, 0, ['thread'], symptoms=sym, plans='pairs'),
+        ] + [
+            Suite(f'set-order-{o}', ['corpus'] + ([] if q else ['oneofx']), mons, 0, ['async'], collab={'set_order': o}, symptoms=sym, min_nodes=6)
+            for o in ('sorted', 'reversed')
+        ] + [
             Suite('d1', ['corpus', 'oneof'], mons, 1, ['thread'], symptoms=sym, plans='std' if q else 'pairs', max_nodes=5 if q else 5),
         ] + ([] if q else [Suite('d2', ['corpus', 'oneof'], mons, 2, ['thread'], symptoms=sym, max_nodes=5, limit=20000)])
     if prop == 'C11':
@@ -165,6 +187,10 @@ def suites(prop: str, tier: str) -> t.List[Suite]:
             Suite('reverse-task-order', ['plain', 'oneof', 'switch', 'rec', 'corpus'], ['left'], 0, ['async'], collab={'task_order': 'reverse'},
                   symptoms=LEFT, max_nodes=5),
             Suite('composed', COMPOSED, ['left'], 0, ['async'] if q else ['async', 'thread'], symptoms=LEFT),
+        ] + [
+            Suite(f'set-order-{o}', ['corpus'] + ([] if q else ['oneofx']), ['left'], 0, ['async'], collab={'set_order': o}, symptoms=LEFT, min_nodes=6)
+            for o in ('sorted', 'reversed')
+        ] + [
             Suite('cancel-every-step', ['corpus', 'plain'] + ([] if q else ['oneof', 'switch', 'rec']), ['left', 'cancel'], 0, ['async', 'thread'],
                   symptoms=LEFT, plans='cancel', max_nodes=8 if q else 8),
             # the caller cancels at every loop step of a run in which one node fails (contained or not)
@@ -200,6 +226,12 @@ def suites(prop: str, tier: str) -> t.List[Suite]:
                   max_nodes=5, plans='ok', limit=20000),
             Suite('d1', ['corpus'] + ([] if q else ['plain', 'rec', 'oneof']), ['events'], 1, ['thread'], collab={'mode': 'yield'},
                   symptoms=None, max_nodes=5),
+        ] + [
+            # a manager that defines only some of the hooks, registered BEFORE a complete one: the complete manager must
+            # still see the whole history, the partial one the part it defines
+            Suite('partial-first-' + '+'.join(missing), ['corpus', 'plain', 'oneof', 'switch', 'rec'], ['events'], 0, ['async'],
+                  collab={'partial_first': list(missing)}, symptoms=None, max_nodes=4 if q else 6)
+            for missing in _hook_subsets(q)
         ]
     if prop == 'C19':
         sym = {'saved-recurrent', 'saved-failure', 'save-count', 'save-value', 'save-unknown-node'} | VERDICT | {'wrong-error'}
@@ -220,6 +252,13 @@ def suites(prop: str, tier: str) -> t.List[Suite]:
                   collab={'store': 'once'}, symptoms=sym, plans='ok', max_nodes=5),
         ]
     raise KeyError(prop)
+
+
+def _hook_subsets(q: bool) -> t.List[tuple]:
+    import itertools
+    hooks = ('pipeline_start', 'pipeline_complete', 'node_start', 'node_complete')
+    subs = [c for r in range(1, 5) for c in itertools.combinations(hooks, r)]
+    return [c for c in subs if len(c) in (1, 4)] if q else subs
 
 
 def fam_specs(fam: str, tier: str) -> t.List[dict]:
@@ -336,7 +375,7 @@ def run(prop: str, tier: str, seed: int) -> dict:
             continue
         for fam in su.fams:
             for spec in fam_specs(fam, tier):
-                if len(spec['nodes']) > su.max_nodes:
+                if len(spec['nodes']) > su.max_nodes or len(spec['nodes']) < su.min_nodes:
                     continue
                 if NEED_KIND.get(prop) and NEED_KIND[prop] not in S.kinds_used(spec):
                     continue
